@@ -324,4 +324,5 @@ func main() {
 	writeIfChanged(filepath.Join(out, "WriteGen.v"), p.emitWriteGen())
 	writeIfChanged(filepath.Join(out, "PsiWriteGen.v"), p.emitPsiWriteGen())
 	writeIfChanged(filepath.Join(out, "RestGen.v"), p.emitRestGen())
+	writeIfChanged(filepath.Join(out, "RestData.v"), p.emitRestData())
 }
